@@ -33,6 +33,13 @@ import (
 var c15ErrParentless = errors.New("scripted parentless-check failure")
 var c15DeadlineHits int32
 
+func c15Peer(b *c15Batch) string {
+	if b.noPeer {
+		return ""
+	}
+	return "peer" + strconv.Itoa(b.id)
+}
+
 type c15Batch struct {
 	id      int
 	ordered bool
@@ -46,6 +53,7 @@ type c15Batch struct {
 	ready     chan struct{}
 
 	accepted, done bool
+	noNotify, noDone, noPeer bool // Enqueue called with notifyAnnounces == nil / done == nil / peer ""
 	handled, expect int // process() entries seen / expected when the batch is cut short
 }
 
@@ -57,6 +65,9 @@ type c15Script struct {
 	batches                []*c15Batch
 	stopAt                 int // >= 0: call Stop() as soon as the callback log has that many entries
 	noReleased, noCheck    bool // "O <flags>": EventCallback.Released / CheckParents are nil
+	maxTasks               int  // "M k": Config.MaxTasks (default 128)
+	timeoutMs              int  // "T ms": Config.EventsSemaphoreTimeout (default 50)
+	probes                 []int // "E kind": second-use probes after Stop
 }
 
 func c15Parse(in []string) *c15Script {
@@ -66,7 +77,7 @@ func c15Parse(in []string) *c15Script {
 		panic("bad header")
 	}
 	sc := &c15Script{capN: c14U(h[0]), capS: c14U(h[1]), limN: c14U(h[2]), limS: c14U(h[3]),
-		h0: uint32(c14U(h[4])), g: int(c14U(h[5])), stopAt: -1}
+		h0: uint32(c14U(h[4])), g: int(c14U(h[5])), stopAt: -1, maxTasks: 128, timeoutMs: 50}
 	k := int(c14U(h[7]))
 	p := 8
 	for i := 0; i < k; i++ {
@@ -91,6 +102,18 @@ func c15Parse(in []string) *c15Script {
 			sc.stopAt = int(c14U(t[1]))
 			continue
 		}
+		if len(t) == 2 && t[0] == "M" {
+			sc.maxTasks = int(c14U(t[1]))
+			continue
+		}
+		if len(t) == 2 && t[0] == "T" {
+			sc.timeoutMs = int(c14U(t[1]))
+			continue
+		}
+		if len(t) == 2 && t[0] == "E" {
+			sc.probes = append(sc.probes, int(c14U(t[1])))
+			continue
+		}
 		if len(t) == 2 && t[0] == "O" {
 			sc.noReleased = sc.noReleased || strings.Contains(t[1], "r")
 			sc.noCheck = sc.noCheck || strings.Contains(t[1], "c")
@@ -99,7 +122,9 @@ func c15Parse(in []string) *c15Script {
 		if len(t) < 6 || t[0] != "B" {
 			panic("bad batch")
 		}
-		b := &c15Batch{id: int(c14U(t[1])), ordered: t[2] == "1", gor: int(c14U(t[3])) % sc.g, hold: int(c14U(t[4]))}
+		fl := int(c14U(t[2])) // bit 0 ordered, 1 notifyAnnounces nil, 2 done nil, 3 empty peer id
+		b := &c15Batch{id: int(c14U(t[1])), ordered: fl&1 != 0, gor: int(c14U(t[3])) % sc.g, hold: int(c14U(t[4])),
+			noNotify: fl&2 != 0, noDone: fl&4 != 0, noPeer: fl&8 != 0}
 		n := int(c14U(t[5]))
 		q := 6
 		for i := 0; i < n; i++ {
@@ -147,6 +172,13 @@ func c15Parse(in []string) *c15Script {
 			close(b.ready)
 		}
 		sc.batches = append(sc.batches, b)
+	}
+	for i, b := range sc.batches {
+		// without done() a completion is only visible through a later batch's done(): one Enqueue
+		// caller (queue order = script order), not the last batch, no stop point
+		if sc.g != 1 || sc.stopAt >= 0 || i == len(sc.batches)-1 {
+			b.noDone = false
+		}
 	}
 	return sc
 }
@@ -212,8 +244,31 @@ func c15Run(in []string) []string {
 	}
 	cfg := dagprocessor.Config{
 		EventsBufferLimit:      dag.Metric{Num: idx.Event(sc.limN), Size: sc.limS},
-		EventsSemaphoreTimeout: 50 * time.Millisecond,
-		MaxTasks:               128,
+		EventsSemaphoreTimeout: time.Duration(sc.timeoutMs) * time.Millisecond,
+		MaxTasks:               sc.maxTasks,
+	}
+	if sc.maxTasks != 128 {
+		vu.Stat(fmt.Sprintf("config_maxtasks_%d", sc.maxTasks))
+	}
+	if sc.timeoutMs != 50 {
+		vu.Stat(fmt.Sprintf("config_timeout_%dms", sc.timeoutMs))
+	}
+	switch {
+	case sc.capN == 0 || sc.capS == 0:
+		vu.Stat("config_cap_0")
+	case sc.capN == 1:
+		vu.Stat("config_cap_1")
+	}
+	switch sc.limN {
+	case 0:
+		vu.Stat("config_buflimit_0")
+	case 1:
+		vu.Stat("config_buflimit_1")
+	case 3000:
+		vu.Stat("config_buflimit_default")
+	}
+	if uint64(sc.h0)+1+sc.limN >= 1<<32 {
+		vu.Stat("highest_lamport_wraps")
 	}
 	cbs := dagprocessor.Callback{
 		Event: dagprocessor.EventCallback{
@@ -249,7 +304,7 @@ func c15Run(in []string) []string {
 						sc.batches[ev.Batch].handled++
 					}
 				}
-				if ev, ok := e.(*gsev.Ev); !ok || peer != "peer"+strconv.Itoa(sc.batches[ev.Batch].id) {
+				if ev, ok := e.(*gsev.Ev); !ok || peer != c15Peer(sc.batches[ev.Batch]) {
 					code = "8"
 				}
 				vu.Stat("released_" + code)
@@ -377,8 +432,7 @@ func c15Run(in []string) []string {
 				mu.Lock()
 				inEnqueue++
 				mu.Unlock()
-				err := proc.Enqueue("peer"+strconv.Itoa(bt.id), evs, bt.ordered,
-					func(ids hash.Events) {
+				notify := func(ids hash.Events) {
 						mu.Lock()
 						t := make([]string, len(ids))
 						for i, id := range ids {
@@ -387,15 +441,33 @@ func c15Run(in []string) []string {
 						log = append(log, fmt.Sprintf("N.%d.%s", bt.id, strings.Join(t, "_")))
 						checkStop()
 						mu.Unlock()
-					},
-					func() {
+					}
+				doneF := func() {
 						mu.Lock()
 						log = append(log, fmt.Sprintf("Z.%d", bt.id))
 						checkStop()
 						doneCount++
 						bt.done = true
 						mu.Unlock()
-					})
+					}
+				if bt.noNotify {
+					notify = nil
+					vu.Stat("enqueue_notify_nil")
+				}
+				if bt.noDone {
+					doneF = nil
+					vu.Stat("enqueue_done_nil")
+				}
+				if bt.noPeer {
+					vu.Stat("enqueue_peer_empty")
+				}
+				switch len(evs) {
+				case 0:
+					vu.Stat("batch_size_0")
+				case 1:
+					vu.Stat(fmt.Sprintf("batch_size_1_ordered_%v", bt.ordered))
+				}
+				err := proc.Enqueue(c15Peer(bt), evs, bt.ordered, notify, doneF)
 				mu.Lock()
 				inEnqueue--
 				if err == dagprocessor.ErrBusy {
@@ -452,6 +524,10 @@ func c15Run(in []string) []string {
 					pending = true
 				}
 				blocked = sc.g == 1 // the inserter stays in this batch
+			} else if bt.noDone {
+				if bt.handled < len(bt.evs) {
+					pending = true
+				}
 			} else if !bt.done {
 				pending = true
 			}
@@ -493,6 +569,45 @@ func c15Run(in []string) []string {
 		log = append(log, "W")
 	}
 	log = append(log, "M."+b(atomic.LoadInt32(&overCap) == 0))
+	// second-use probes: the processor has been stopped
+	if len(sc.probes) > 0 {
+		mu.Unlock()
+		for _, kind := range sc.probes {
+			res := func() (res string) {
+				defer func() {
+					if recover() != nil {
+						res = "panic"
+					}
+				}()
+				pe := gsev.New(1000000+kind, 900000+uint64(kind), nil, 3, 1)
+				evs := dag.Events{pe}
+				switch kind {
+				case 1: // Start again, then Enqueue
+					proc.Start()
+				case 2: // Stop a second time
+					proc.Stop()
+					return "ok"
+				case 3: // an empty batch
+					evs = dag.Events{}
+				}
+				err := proc.Enqueue("probe", evs, kind%2 == 0, nil, nil)
+				switch err {
+				case nil:
+					return "ok"
+				case dagprocessor.ErrBusy:
+					return "busy"
+				}
+				return "term"
+			}()
+			vu.Stat(fmt.Sprintf("probe_%d_%s", kind, res))
+			mu.Lock()
+			log = append(log, fmt.Sprintf("PE.%d.%s", kind, res))
+			mu.Unlock()
+		}
+		p = sem.Processing()
+		mu.Lock()
+		log = append(log, fmt.Sprintf("S2.%d.%d", p.Num, p.Size))
+	}
 	var bz []int
 	for id := range busy {
 		bz = append(bz, id)
@@ -595,7 +710,14 @@ func c15Gen(r *rand.Rand, emit func(...string)) {
 			hold = 1 + r.Intn(n)
 			vu.Stat("batch_held")
 		}
-		t := []string{"B", strconv.Itoa(bid), vu.B(ordered), strconv.Itoa(r.Intn(g)), strconv.Itoa(hold), strconv.Itoa(n)}
+		fl := 0
+		if ordered {
+			fl = 1
+		}
+		if r.Intn(8) == 0 {
+			fl |= 2 << uint(r.Intn(3)) // notifyAnnounces nil / done nil / empty peer id
+		}
+		t := []string{"B", strconv.Itoa(bid), strconv.Itoa(fl), strconv.Itoa(r.Intn(g)), strconv.Itoa(hold), strconv.Itoa(n)}
 		sz := 0
 		for _, i := range part {
 			bad := r.Intn(10) == 0
@@ -672,7 +794,101 @@ func c15Gen(r *rand.Rand, emit func(...string)) {
 	for _, bt := range batches {
 		line += " ; " + bt
 	}
+	if r.Intn(6) == 0 {
+		line += " ; M " + strconv.Itoa([]int{0, 1, 2, 3}[r.Intn(4)])
+	}
+	if r.Intn(10) == 0 {
+		line += " ; T " + strconv.Itoa(r.Intn(2))
+	}
+	if r.Intn(8) == 0 {
+		line += " ; E " + strconv.Itoa(r.Intn(4))
+	}
 	emit(strings.Fields(line)...)
+}
+
+// configuration / size sweep for the processor: every config field at 0 / 1 / small / default, semaphore
+// capacity 0 / 1 / exactly one batch, batches of 0 and 1 events (ordered and unordered), nil
+// notifyAnnounces / done, empty peer id, all optional callbacks nil together, HighestLamport at the
+// uint32 boundary (also limit.Num = MaxUint32: 1 + Num wraps to 0), second use after Stop
+func c15Sweep(emit func(...string)) {
+	type ev struct {
+		id, size, lam uint64
+		bad           bool
+		pars          []uint64
+	}
+	batch := func(b, flags, gor int, evs []ev, perm []int) string {
+		t := []string{"B", strconv.Itoa(b), strconv.Itoa(flags), strconv.Itoa(gor), "0", strconv.Itoa(len(evs))}
+		for _, e := range evs {
+			t = append(t, vu.U64(e.id), vu.U64(e.size), vu.U64(e.lam), vu.B(e.bad), strconv.Itoa(len(e.pars)))
+			for _, p := range e.pars {
+				t = append(t, vu.U64(p))
+			}
+		}
+		t = append(t, "PERM")
+		for _, p := range perm {
+			t = append(t, strconv.Itoa(p))
+		}
+		return strings.Join(t, " ")
+	}
+	out := func(capN, capS, limN, limS, h0 uint64, g int, ops ...string) {
+		line := strings.Join([]string{vu.U64(capN), vu.U64(capS), vu.U64(limN), vu.U64(limS), vu.U64(h0), strconv.Itoa(g), "FC", "0", "FP", "0"}, " ")
+		for _, o := range ops {
+			line += " ; " + o
+		}
+		vu.Stat("gen_sweep")
+		emit(strings.Fields(line)...)
+	}
+	const big, maxN = uint64(c14Big), uint64(4294967295)
+	// chain 1 <- 2 <- 3 <- 4 (+ 5 with an unknown parent), three batches; the second arrives before its parents
+	mk := func(l1, l2, l3, l4 uint64) [][]ev {
+		return [][]ev{
+			{{3, 3, l3, false, []uint64{2}}, {4, 4, l4, false, []uint64{3}}},
+			{{1, 1, l1, false, nil}, {2, 2, l2, false, []uint64{1}}},
+			{{5, 5, l2, false, []uint64{77}}, {6, 6, l1, true, nil}},
+		}
+	}
+	std := func(fl0, fl1, fl2 int, d [][]ev) []string {
+		return []string{batch(0, fl0, 0, d[0], []int{1, 0}), batch(1, fl1, 0, d[1], []int{0, 1}), batch(2, fl2, 0, d[2], []int{1, 0})}
+	}
+	d := mk(1, 2, 3, 4)
+	// buffer limits and semaphore capacities
+	for _, lim := range [][2]uint64{{0, big}, {1, big}, {2, big}, {big, 0}, {big, 3}, {3000, 10 * 1024 * 1024}, {maxN, big}} {
+		for _, cp := range [][2]uint64{{big, big}, {2, 7}, {2, big}, {big, 7}, {1, big}, {0, big}, {big, 0}, {6, 21}} {
+			out(cp[0], cp[1], lim[0], lim[1], 0, 1, std(1, 0, 1, d)...)
+		}
+	}
+	// worker pool sizes and semaphore timeout, one and several Enqueue callers, with and without a stop point
+	for _, mt := range []string{"M 0", "M 1", "M 2", "M 128"} {
+		for _, to := range []string{"T 0", "T 1", "T 50"} {
+			out(big, big, 2, big, 0, 1, append(std(1, 0, 0, d), mt, to)...)
+			out(2, big, 2, big, 0, 1, append(std(1, 0, 0, d), mt, to)...)
+			ops := []string{batch(0, 1, 0, d[0], []int{0, 1}), batch(1, 0, 1, d[1], []int{1, 0}), batch(2, 0, 2, d[2], []int{0, 1}), mt, to}
+			out(big, big, 2, big, 0, 3, ops...)
+			out(big, big, 2, big, 0, 3, append(ops, "S 3")...)
+		}
+	}
+	// batches of 0 and 1 events, ordered and unordered; nil notifyAnnounces / done; empty peer id
+	one := []ev{{1, 1, 1, false, nil}}
+	kid := []ev{{2, 2, 2, false, []uint64{1}}}
+	for fl := 0; fl < 16; fl++ {
+		out(big, big, 3, big, 0, 1, batch(0, fl, 0, nil, nil), batch(1, fl, 0, kid, []int{0}), batch(2, fl^1, 0, one, []int{0}), batch(3, 1, 0, nil, nil))
+		out(big, big, 3, big, 0, 1, append(std(fl, fl^1, fl, d), "O rc")...)
+		out(big, big, 3, big, 0, 2, batch(0, fl, 0, kid, []int{0}), batch(1, fl, 1, one, []int{0}), "S 2")
+	}
+	// HighestLamport at the uint32 boundary
+	for _, c := range [][3]uint64{{maxN, 2, 0}, {maxN - 3, 2, 0}, {maxN - 2, 2, 0}, {maxN - 4, 2, 0}, {0, maxN, 0}, {5, maxN, 0}, {maxN, maxN, 0}, {maxN - 1, 0, 0}} {
+		h0, limN := c[0], c[1]
+		for _, base := range []uint64{1, maxN - 3, h0, (h0 + 1 + limN) % (1 << 32), (h0 + 2 + limN) % (1 << 32)} {
+			l := func(k uint64) uint64 { return (base + k) % (1 << 32) }
+			out(big, big, limN, big, h0, 1, std(1, 0, 0, mk(l(0), l(1), l(2), l(3)))...)
+		}
+	}
+	// second use: Enqueue after Stop, Start again, Stop twice, an empty batch after Stop
+	for _, pr := range [][]string{{"E 0"}, {"E 1"}, {"E 2"}, {"E 3"}, {"E 0", "E 1", "E 3", "E 2", "E 0"}} {
+		out(big, big, 3, big, 0, 1, append(std(1, 0, 0, d), pr...)...)
+		out(2, 7, 0, big, 0, 2, append(append(std(0, 1, 0, d), "S 2"), pr...)...)
+		out(big, big, 3, big, 0, 1, append(append(std(1, 0, 0, d), "O rc"), pr...)...)
+	}
 }
 
 // stop-point stream: the same scripts (no batch cut short by the script) with Stop() called as soon
@@ -714,6 +930,7 @@ func c15GenStopRace(r *rand.Rand, emit func(...string)) {
 func init() {
 	vu.Register("C15", &vu.Prop{
 		Gen: func(r *rand.Rand, n int, tier string, emit func(...string)) {
+			c15Sweep(emit)
 			for i := 0; i < n; i++ {
 				if i%12 == 7 {
 					fl := []string{"r", "c", "rc"}[r.Intn(3)]
